@@ -473,6 +473,9 @@ def rule_G(ctx):
         'two tracks with different uids': [(1, [(5, 5), (15, 5), (15, 15), (25, 15)], [1.0, 2.0, DNAN, 4.0]), (2, [(5, 5), (5, 15), (25, 15)], [10.0, 20.0, 30.0])],
         'three tracks sharing one uid, their i-th fixes in different cells': [(0, [(5, 5), (15, 5)], [1.0, 2.0]), (0, [(25, 15), (5, 15)], [5.0, 7.0]), (0, [(15, 15), (15, 15)], [DNAN, 9.0])],
         'values that are zero (0.0, -0.0, the integer 0) next to others': [(1, [(5, 5), (5, 6), (15, 5), (25, 15)], [0.0, 3.0, 0, -0.0]), (2, [(5, 5), (15, 5), (25, 15), (25, 16)], [0.0, 0.0, 2.0, -2.0])],
+        # (the cell of a fix on a border is the one getCell gives it - decided by C19.C -, whatever cell the fix before it fell in)
+        'consecutive fixes, the later one on the right border, the upper border or a corner of the cell of the one before': [(1, [(5, 5), (10, 5), (10, 10), (20, 10), (15, 10), (15, 5)], [1.0, 2.0, 4.0, 8.0, 16.0, 32.0]),
+                                                                                                                            (2, [(25, 5), (25, 10), (20, 15), (20, 20), (30, 20)], [3.0, 5.0, 7.0, 9.0, 11.0])],
     }
     uid_aggs = ['co_count', 'co_sum', 'co_max']
     aggs = ['co_median', 'co_count', 'co_sum', 'co_min', 'co_max', 'co_avg']      # the median first: the later maps read the same per-cell lists
@@ -499,11 +502,19 @@ def rule_G(ctx):
             bad = bad or {'collection': lname, 'exception': '%s: %s' % (type(ex).__name__, str(ex)[:200])}
             continue
         cells, ucells = {}, {}
+        r0 = R(Bb(*ext), res, 0.0)
         for uid, pts, vals in tracks:
             for (x, y), v in zip(pts, vals):
                 col, k = int(x // 10), int(y // 10)
-                cells.setdefault((col, 2 - 1 - k), []).append(v)
-                ucells.setdefault((col, 2 - 1 - k), []).append(uid)
+                key_ = (col, 2 - 1 - k)
+                if x % 10 == 0 or y % 10 == 0:
+                    try:
+                        c_ = r0.call('getCell', P(x, y))
+                    except orders.Unsupported as ex:
+                        raise shape_error('Raster.getCell not interpretable: %s' % ex, fa.loc())
+                    key_ = (int(c_[0]), int(c_[1])) if isinstance(c_, tuple) and len(c_) == 2 else key_
+                cells.setdefault(key_, []).append(v)
+                ucells.setdefault(key_, []).append(uid)
         for row in range(2):
             for col in range(3):
                 us = ucells.get((col, row), [])
